@@ -39,7 +39,7 @@ Ve == 101  VE == 69   Vf == 102  VF == 70  Vg == 103  VG == 71
 (* Terms.  Uniform record shape:                                           *)
 (*  k    kind: "nil" "bool" "int" "uint" "float" "string" "bytes"          *)
 (*             "rstring" "rbytes" "safe" "unsafe" "obj"                    *)
-(*             "slice" "map" "struct" "ptrto" "nilptr"                     *)
+(*             "slice" "map" "struct" "ptrto" "nilptr" "rvalue" "invalidrv" *)
 (*  id   unique within a case; names the concrete Go value in the harness  *)
 (*  n    integer value (int/uint leaves: also what '*' reads)              *)
 (*  b    bytes (string/rstring content; may hold payload tokens)           *)
@@ -70,6 +70,8 @@ TMap(id, kvs)   == [T0 EXCEPT !.k = "map", !.id = id, !.xs = kvs]
 TStruct(id, xs, ro) == [T0 EXCEPT !.k = "struct", !.id = id, !.xs = xs, !.ro = ro]
 TPtrTo(id, x)   == [T0 EXCEPT !.k = "ptrto", !.id = id, !.xs = <<x>>]
 TNilPtr(id)     == [T0 EXCEPT !.k = "nilptr", !.id = id]
+TRValue(id, x)  == [T0 EXCEPT !.k = "rvalue", !.id = id, !.xs = <<x>>]       \* reflect.ValueOf(x) passed as an operand
+TInvalidRV(id)  == [T0 EXCEPT !.k = "invalidrv", !.id = id]                  \* reflect.Value{}
 \* an object: named int type (value n) with the methods in caps
 TObj(id, caps, scr, fscr, ret, pan) ==
   [T0 EXCEPT !.k = "obj", !.id = id, !.n = id, !.caps = caps, !.scr = scr, !.fscr = fscr, !.b = ret, !.pan = pan]
@@ -161,7 +163,7 @@ IsStringKind(t)    == t.k \in {"string", "rstring"}
 IsPtrKind(t)       == t.k \in {"ptrto", "nilptr", "map", "slice"} \/ IsNilRecv(t)
 
 ---------------------------------------------------------------------------
-RECURSIVE PrintArg(_, _, _), PrintArg2(_, _, _), PrintValue(_, _, _, _, _), PrintElem(_, _, _, _, _),
+RECURSIVE PrintArg(_, _, _), PrintArg2(_, _, _), PrintValue(_, _, _, _, _), PrintElem(_, _, _, _, _), PrintChecked(_, _, _, _, _),
           PrintKind(_, _, _, _, _), HandleMethods(_, _, _), CatchPanic(_, _, _, _), BadVerb(_, _),
           RunScript(_, _, _, _), RunOp(_, _, _, _), PPPrint(_, _), PPPrintf(_, _, _),
           DoPrint(_, _), DoPrintArgs(_, _, _, _), DoPrintf(_, _, _), DoItems(_, _, _), DoExtra(_, _, _),
@@ -376,13 +378,22 @@ PrintArg2(ps, a, verb) ==
          [] a.k = "bytes"   -> FmtBytes(ps, a, verb)
          [] a.k \in {"rstring", "rbytes"} ->
               LET m == ps.bs.mode o == ps.ov IN Restore(W(StartPreRedactable(ps), a.b), m, o)
+         \* a reflect.Value operand: printArg handles the extractable value itself (printValue would not at depth 0)
+         [] a.k = "rvalue" -> IF a.xs[1].k = "nil" THEN W(ps, InvReflectS)          \* reflect.ValueOf(nil) is invalid
+                              ELSE PrintChecked(ps, a.xs[1], verb, 0, FALSE)
+         [] a.k = "invalidrv" -> W(ps, InvReflectS)
          [] OTHER -> LET hm == HandleMethods(ps, a, verb) IN
                      IF hm[1] THEN hm[2] ELSE PrintValue(hm[2], a, verb, 0, FALSE)
 
 \* ---- printValue (print.go:820).  ro: reached through an unexported field (CanInterface false)
 PrintValue(ps, v, verb, depth, ro) ==
   IF Exc(ps) THEN ps
-  ELSE IF depth > 0 THEN
+  ELSE IF depth > 0 THEN PrintChecked(ps, v, verb, depth, ro)
+  ELSE PrintKind(ps, v, verb, depth, ro)
+
+\* special values, registry, SafeValue and method dispatch, then the switch on the kind: what printValue does
+\* at depth > 0 and what printArg does itself for a reflect.Value operand (with depth 0)
+PrintChecked(ps, v, verb, depth, ro) ==
     LET m == ps.bs.mode  o == ps.ov IN
     \* handleSpecialValues
     IF v.k = "safe"   THEN Restore(PrintElem(StartSafeOverride(ps), v.xs[1], verb, depth + 1, TRUE), m, o)
@@ -397,7 +408,6 @@ PrintValue(ps, v, verb, depth, ro) ==
              r   == IF hm[1] THEN hm[2] ELSE PrintKind(hm[2], v, verb, depth, ro)
              r1  == IF sv THEN Restore(r, m1, o1) ELSE r
          IN IF reg THEN Restore(r1, m, o) ELSE r1
-  ELSE PrintKind(ps, v, verb, depth, ro)
 
 \* an interface-typed slot (slice element, map key/value, interface struct field holding nil):
 \* first the Interface-kind level (SafeValue / methods on the dynamic value), then its Elem
